@@ -1,3 +1,84 @@
--- stub: replaced by the property author
+import SupervisorModel.Model.Pool
+/-
+  C09 — events reach exactly the subscribed pools, in order, and are not lost.
+  Property theorems only.
+-/
+set_option linter.unusedSimpArgs false
+set_option linter.unusedVariables false
 namespace Sv.Props.C09
+open Sv Sv.Pool Sv.Events Sv.Gen.Events Sv.Gen.Pool
+
+/-- the generated list of registered event types is complete -/
+theorem all_complete (c : Cls) : c ∈ Cls.all := by cases c <;> decide
+
+/-- `isinstance` over the generated class table is reflexive: a pool subscribed to an event's own type is offered it -/
+theorem isInstance_refl (c : Cls) : isInstance c c = true := by cases c <;> decide
+
+/-- every registered type is an `EVENT` (the root abstract type) -/
+theorem every_type_is_event (c : Cls) : isInstance c .EVENT = true := by cases c <;> decide
+
+/-- the table is closed under taking supertypes (checked over the whole generated table) -/
+theorem ancestors_closed :
+    (Cls.all.all fun a => Cls.all.all fun b => !isInstance a b || b.ancestors.all (fun c => isInstance a c)) = true := by
+  decide
+
+/-- **offered_to_subscribers**: `notify` runs pool `i`'s `_acceptEvent` for an event of class `c` exactly when
+    one of the types the pool is subscribed to is `c` itself or one of its supertypes -- and for no other pool. -/
+theorem offered_to_subscribers (pools : List PoolSt) (c : Cls) (i : Nat) :
+    i ∈ notified (callbacks pools) c ↔ ∃ p, pools[i]? = some p ∧ ∃ t ∈ p.subs, isInstance c t = true := by
+  simp only [notified, callbacks, List.mem_map, List.mem_filter, List.mem_flatten]
+  constructor
+  · rintro ⟨s, ⟨⟨l, hl, hs⟩, hi⟩, rfl⟩
+    rcases hl with ⟨⟨p, j⟩, hpj, rfl⟩
+    simp only [List.mem_map] at hs
+    rcases hs with ⟨t, ht, rfl⟩
+    have := List.mem_zipIdx hpj
+    simp at this
+    rcases this with ⟨hj, hp⟩
+    exact ⟨p, by rw [hp]; exact List.getElem?_eq_getElem hj, t, ht, hi⟩
+  · rintro ⟨p, hp, t, ht, hi⟩
+    refine ⟨{ type := t, who := i }, ⟨⟨p.subs.map fun t => ({ type := t, who := i } : Sub), ?_, ?_⟩, hi⟩, rfl⟩
+    · refine ⟨(p, i), ?_, rfl⟩
+      rw [List.mem_zipIdx_iff_getElem?]; simpa using hp
+    · exact List.mem_map.mpr ⟨t, ht, rfl⟩
+
+example : (0 : Nat) ∈ notified (callbacks [{ name := "a", bufSize := 3, subs := [.TICK] }]) .TICK_5 := by decide
+example : (0 : Nat) ∉ notified (callbacks [{ name := "a", bufSize := 3, subs := [.TICK_60] }]) .TICK_5 := by decide
+
+/-! ### serials -/
+
+/-- `new_serial` away from the wrap at `maxint`: the counter goes up by exactly one, so serials handed out
+    by one counter are strictly increasing, hence unique.  Full statement (`serial_unique`,
+    `poolserial_increasing` for every history) additionally needs "fewer than `maxint` events"; the
+    wrap itself is `newSerial_wraps` below. -/
+theorem newSerial_increasing_partial (serial : Int) (h : serial ≠ maxint) : newSerial serial = serial + 1 := by
+  simp [newSerial, newSerial_g0, newSerial_a0, newSerial_a1, newSerial_a2, h]
+
+example : (5 : Int) ≠ maxint := by decide
+
+/-- at `maxint` the counter restarts at 0: serials are unique only within `maxint + 1` events -/
+theorem newSerial_wraps : newSerial maxint = 0 := by decide
+
+/-! ### concrete regression instances (finite evaluations of the model, not the universal claims) -/
+
+def tickPool : PoolSt := { name := "a", bufSize := 3, subs := [.TICK, .TICK_5], procs := [Listener.initial] }
+
+/-- F16 (fixed): a pool subscribed to `TICK` and `TICK_5` is called twice by `notify` but buffers the event once -/
+theorem offered_once_instance :
+    (notified (callbacks [tickPool]) .TICK_5) = [0, 0] ∧
+    ((notify .TICK_5 [] { pools := [tickPool] }).pools.map (·.buffer)) = [[0]] := by decide
+
+/-- F1 (fixed): a rejection by a listener of pool 0 re-buffers the event in pool 0 only -/
+theorem reject_isolated_instance :
+    let w0 : W := { pools := [{ tickPool with subs := [.TICK_5] }, { tickPool with name := "b", subs := [.TICK_60] }] }
+    let w1 := notify .TICK_5 [] w0
+    let w2 := setPool w1 0 (fun p => { p with buffer := [] })      -- the event is out with a listener
+    ((rejected 0 0 w2).pools.map (·.buffer)) = [[0], []] := by decide
+
+/-- overflow: a full buffer (size 1) drops its oldest event, with a log entry, and keeps the new one -/
+theorem overflow_drops_oldest_instance :
+    let w0 : W := { pools := [{ tickPool with bufSize := 1 }] }
+    let w2 := notify .TICK_5 [] (notify .TICK_5 [] w0)
+    (w2.pools.map (·.buffer)) = [[1]] ∧ w2.outs.length = 1 := by decide
+
 end Sv.Props.C09
